@@ -478,6 +478,13 @@ def grid_identical(g, h):
     """the monitor of the grid part of the property: None or what differs"""
     if isinstance(h, Exception):
         return f"raised {exc_name(h)}: {h}"
+    try:
+        return _grid_identical(g, h)
+    except Exception as e:  # noqa: BLE001
+        return f"comparing the grids raised {exc_name(e)}: {e}"
+
+
+def _grid_identical(g, h):
     if type(h) is not type(g):
         return f"class {type(h).__name__} instead of {type(g).__name__}"
     if not (h == g) or not (g == h) or (h != g):
@@ -1818,7 +1825,7 @@ def run(ctx):
     warnings.simplefilter("ignore", RuntimeWarning)        # casts of uninitialised ghost cells
     rng = ctx.rng
     P = Pending(ctx)
-    n_grids = ctx.budget(700, 12000)
+    n_grids = ctx.budget(1500, 20000)
     for spec in REGRESSION_GRIDS:
         ctx.hist("stream", "regression")
         grid_legs(ctx, P, spec, rng)
@@ -1907,9 +1914,11 @@ def replay(ctx, rep):
     warnings.simplefilter("ignore", DeprecationWarning)
     c = rep["case"]
     sub = Ctx(ctx.pid, ctx.tier, ctx.seed, ctx.workdir)
-    if not _replay_case(sub, NoModel(), c, ctx.sub_rng("replay")):
+    if c.get("leg") not in ("grid", "construct", "equality", "malformed-grid", "field", "malformed-field", "collection",
+                            "malformed-collection", "fromdata"):
         print("nothing to replay for leg", c.get("leg"))
         return True
+    _guard(sub, c.get("leg"), c.get("grid"), lambda: _replay_case(sub, NoModel(), c, ctx.sub_rng("replay")))
     for mf in sub.monitor_failures[:3]:
         print("monitor FAILS:", mf["what"], json.dumps(mf["observed"], default=str)[:600])
     if not sub.monitor_failures:
